@@ -50,7 +50,7 @@ def input_class(case):
     """Canonical class of the INPUT of a case (keys of violations are classes of inputs, not of symptoms)."""
     r = case["r"]
     if case["kind"] == "name" and r["stage"] == -1 and "." in r["prod"] and _LOOKALIKE.match(r["prod"][0]):
-        return "relative-name-with-stage-lookalike-prefix"
+        return "parse:relative-name-with-stage-lookalike-prefix"
     return None
 
 
@@ -356,7 +356,7 @@ def run(tier):
                 ("NamesFull", "FilesSmall", "MethodsTwo", "ContextsFull")]
     # 1a. vacuity guard for the actions (small constants, -coverage)
     c0 = _cfg(os.path.join(gen, "References_cov_%s.cfg" % tier),
-              _constants("NamesFull", "FilesSmall", "MethodsTwo", "ContextsOne", False) + "SPECIFICATION Spec\n" + inv + "CHECK_DEADLOCK FALSE\n")
+              _constants("NamesFull", "FilesTwo", "MethodsOne", "ContextsOne", False) + "SPECIFICATION Spec\n" + inv + "CHECK_DEADLOCK FALSE\n")
     res = tlc.run_tlc("References", c0, timeout=600, coverage=True)
     if not res["ok"]:
         raise MachineryError("References.tla: %s fails on the model:\n%s" % (res["violated"], res["out"][-2500:]))
